@@ -1,4 +1,5 @@
 import Cuckoo.Props.C02
+import Cuckoo.Proofs.Iter
 /-!
 # C09 — locked_table iteration enumerates each element exactly once, in both directions
 
@@ -18,39 +19,52 @@ def occupiedPositions (S : Nat) (st : Store κ ν) : List Pos :=
 /-- forward traversal visits exactly the occupied positions, each once, in index order, and then reaches `end()` -/
 theorem forward_visits_occupied_in_order (S : Nat) (st : Store κ ν) (hS : 0 < S) (hsz : st.cells.size = 2 ^ st.hp * S) :
     st.traverse S = occupiedPositions S st := by
-  sorry
+  exact st.traverse_eq S hsz
 
 /-- backward traversal from `end()` visits the same positions in exactly the reverse order -/
 theorem backward_is_reverse (S : Nat) (st : Store κ ν) (hS : 0 < S) (hsz : st.cells.size = 2 ^ st.hp * S) :
     st.traverseBack S = (occupiedPositions S st).reverse := by
-  sorry
+  exact st.traverseBack_eq S hsz
 
 /-- every visited position holds an element, and every element is visited -/
 theorem visited_iff_occupied (S : Nat) (st : Store κ ν) (hS : 0 < S) (hsz : st.cells.size = 2 ^ st.hp * S) (b s : Nat) :
     (b, s) ∈ st.traverse S ↔ ∃ sl, st.get S b s = some sl := by
-  sorry
+  exact st.mem_traverse S hS hsz b s
 
 /-- no position is visited twice -/
 theorem traverse_nodup (S : Nat) (st : Store κ ν) (hS : 0 < S) (hsz : st.cells.size = 2 ^ st.hp * S) :
     (st.traverse S).Nodup := by
-  sorry
+  exact st.traverse_nodup' S hsz
 
 /-- `begin() == end()` iff the table is empty -/
 theorem begin_eq_end_iff_empty (S : Nat) (st : Store κ ν) (hS : 0 < S) (hsz : st.cells.size = 2 ^ st.hp * S) :
     st.itBegin S = st.endPos ↔ ∀ b s, st.get S b s = none := by
-  sorry
+  exact st.begin_eq_end_iff S hS hsz
+
+/-- membership in the traversal of the current array of a well-formed table -/
+private theorem st_mem (c : Cfg κ) (t : Table κ ν) (h : Inv c t) (b s : Nat) :
+    (b, s) ∈ t.cur.traverse c.S ↔ ∃ sl, t.cur.get c.S b s = some sl :=
+  Store.mem_traverse c.S t.cur h.S_pos h.cur_wf.size b s
 
 /-- iteration of a locked table yields exactly the pairs of the abstract map -/
 theorem iteration_matches_map [DecidableEq κ] (c : Cfg κ) (t : Table κ ν) (m : AMap κ ν) (h : Inv c t) (hr : Rel c t m)
     (hl : AllMig t) (k : κ) (v : ν) :
     (k, v) ∈ m ↔ ∃ p ∈ t.cur.traverse c.S, ∃ sl, t.cur.get c.S p.1 p.2 = some sl ∧ sl.key = k ∧ sl.val = v := by
-  sorry
+  rw [hr.pairs k v]
+  constructor
+  · rintro ⟨tag, hlive⟩
+    obtain ⟨b, s, hg⟩ := (live_iff_cur hl _).mp hlive
+    exact ⟨(b, s), (st_mem c t h b s).mpr ⟨_, hg⟩, _, hg, rfl, rfl⟩
+  · rintro ⟨p, _, sl, hg, rfl, rfl⟩
+    exact ⟨sl.tag, (live_iff_cur hl _).mpr ⟨p.1, p.2, hg⟩⟩
 
 /-- and each key is met at exactly one visited position -/
 theorem iteration_each_key_once [DecidableEq κ] (c : Cfg κ) (t : Table κ ν) (h : Inv c t) (p q : Pos)
     (hp : p ∈ t.cur.traverse c.S) (hq : q ∈ t.cur.traverse c.S) (sl sl' : Slot κ ν)
     (h1 : t.cur.get c.S p.1 p.2 = some sl) (h2 : t.cur.get c.S q.1 q.2 = some sl') (hk : sl.key = sl'.key) : p = q := by
-  sorry
+  have := h.uniq (.cur p.1 p.2) (.cur q.1 q.2) sl sl' h1 h2 hk
+  injection this with e1 e2
+  exact Prod.ext e1 e2
 
 /-- `find` agrees with the map: it returns the position of the key, or `end()` -/
 theorem ltFind_agrees [DecidableEq κ] (c : Cfg κ) (t : Table κ ν) (m : AMap κ ν) (k : κ) (h : Inv c t) (hr : Rel c t m)
@@ -58,7 +72,38 @@ theorem ltFind_agrees [DecidableEq κ] (c : Cfg κ) (t : Table κ ν) (m : AMap 
     match m.lookup k with
     | some v => ∃ sl, t.cur.get c.S (t.ltFind c k).1 (t.ltFind c k).2 = some sl ∧ sl.key = k ∧ sl.val = v
     | none => t.ltFind c k = t.cur.endPos := by
-  sorry
+  have hloc : (t.locate c true k).2 = cuckooFind c t.cur (c.i1 t.hp k) (c.i2 t.hp k) k := rfl
+  have cf := cuckooFind_spec c t k h (hl.unmigB _) (hl.unmigB _)
+  unfold Table.ltFind
+  rw [hloc]
+  cases hlk : m.lookup k with
+  | some v =>
+    simp only
+    obtain ⟨tag, p', hp'⟩ := (hr.pairs k v).mp ((AMap.lookup_eq_some_iff m hr.nodup k v).mp hlk)
+    cases hcf : cuckooFind c t.cur (c.i1 t.hp k) (c.i2 t.hp k) k with
+    | none =>
+      rw [hcf] at cf
+      exact absurd ⟨p', hp'⟩ (cf tag v)
+    | some bs =>
+      obtain ⟨b, s⟩ := bs
+      rw [hcf] at cf
+      obtain ⟨sl, hg, hk, _⟩ := cf
+      simp only
+      rw [Store.itAt_occ t.cur h.cur_wf.size hg]
+      have hu := h.uniq (.cur b s) p' sl ⟨tag, k, v⟩ hg hp' hk
+      subst hu
+      have : sl = ⟨tag, k, v⟩ := Option.some.inj (hg.symm.trans hp')
+      exact ⟨sl, hg, hk, by rw [this]⟩
+  | none =>
+    simp only
+    cases hcf : cuckooFind c t.cur (c.i1 t.hp k) (c.i2 t.hp k) k with
+    | none => rfl
+    | some bs =>
+      obtain ⟨b, s⟩ := bs
+      rw [hcf] at cf
+      obtain ⟨sl, hg, hk, _⟩ := cf
+      have hmem : (k, sl.val) ∈ m := (hr.pairs k sl.val).mpr ⟨sl.tag, .cur b s, by rw [← hk]; exact hg⟩
+      exact absurd hmem ((AMap.lookup_eq_none_iff m k).mp hlk sl.val)
 
 /-- `erase(it)` removes exactly the element at `it`, returns the position of its successor in iteration order,
 and changes no other cell (so every other iterator stays valid) -/
@@ -68,6 +113,26 @@ theorem ltEraseAt_spec [DecidableEq κ] (c : Cfg κ) (t : Table κ ν) (m : AMap
     (t.ltEraseAt c p).2 = t.cur.itNext c.S p ∧
     (∀ b s, (b, s) ≠ p → (t.ltEraseAt c p).1.cur.get c.S b s = t.cur.get c.S b s) ∧
     (t.ltEraseAt c p).1.cur.get c.S p.1 p.2 = none := by
-  sorry
+  obtain ⟨b, s⟩ := p
+  have ⟨hs, hlt⟩ := Store.get_some_lt hget
+  obtain ⟨d1, d2, d3, d4, _, _, _⟩ := delFrom_spec c t b s sl h hget
+  have hmem : (sl.key, sl.val) ∈ m := (hr.pairs _ _).mpr ⟨sl.tag, .cur b s, hget⟩
+  refine ⟨d1, d4.allmig hl, ⟨?_, AMap.nodup_erase m hr.nodup _, ?_⟩, ?_, ?_, ?_⟩
+  · intro k v
+    rw [AMap.mem_erase, hr.pairs k v]
+    constructor
+    · rintro ⟨⟨tag, hlive⟩, hne⟩
+      exact ⟨tag, (d2 _).mpr ⟨hlive, hne⟩⟩
+    · rintro ⟨tag, hlive⟩
+      have := (d2 _).mp hlive
+      exact ⟨⟨tag, this.1⟩, this.2⟩
+  · show (t.delFrom c b s).sumCnt = _
+    have hlen := AMap.length_erase_of_mem m hr.nodup sl.key sl.val hmem
+    rw [d3, hr.count]
+    omega
+  · exact Store.itAt_set_none t.cur h.cur_wf.size hget
+  · intro b' s' hne
+    exact Store.get_set_other c.S t.cur b s b' s' none hs (fun hh => hne (by rw [hh.1, hh.2]))
+  · exact Store.get_set_same c.S t.cur b s none hs hlt
 
 end Cuckoo.Props.C09
